@@ -81,3 +81,14 @@ Theorem c13_outage : forall p,
   o_outcome (ready_probe p) = NotReady.
 Proof. exact outage_fails_closed. Qed.
 Print Assumptions c13_outage.
+
+(* ---- corrupted stored data cannot unseal: the sealing cipher is the authenticated one ---- *)
+From V.Gen Require Surface.
+
+(* the model treats a corrupted store entry as one that fails to unseal.  That rests on the ticket's
+   cipher authenticating what it decrypts: regenerated from pkg/sessions/persistence/ticket.go on this
+   run, makeCipher builds exactly one cipher and it is AES-GCM (the stream mode of the signed cookies
+   would decrypt a flipped bit into a flipped bit of the session) *)
+Theorem c13_store_entries_are_authenticated : Surface.ticket_cipher_is_gcm = true.
+Proof. vm_compute. reflexivity. Qed.
+Print Assumptions c13_store_entries_are_authenticated.
